@@ -4,28 +4,44 @@
                                indices >= 8 whose set-iteration order differs from numeric order), ordered targets, .H;
                                refsim map of the source == refsim map of the compiled output (GaussianTransform + Dgates,
                                resp. one PassiveChannel) on the full register; output acts on exactly the used modes.
-  gaussian_merge               hybrid circuits (passive Gaussian gates + Kerr/cross-Kerr) on the fock backend from a random
-                               bounded-photon ket: both sides exact in the truncated space; non-Gaussian subsequence per mode kept.
+                               Varied besides the circuit: one operation OBJECT applied several times, first parameters that are
+                               bound free parameters (par, -par, 2*par), tiny displacements / tiny first parameters, sf.hbar,
+                               compile(optimize=True); after the compile the source must still have its action, a second compile
+                               of the same Program and a compile of the compiled program must give the same map.
+  gaussian_merge               hybrid circuits (passive Gaussian gates + Kerr/cross-Kerr, one seeded photon-number measurement) on the
+                               fock backend on 1..4 modes from bounded-photon kets prepared by ONE Ket on all modes, by single-mode
+                               Kets on some modes, by a Ket on two of three modes or (active variant) not at all: both sides exact in
+                               the truncated space; non-Gaussian subsequence per mode kept; the merge loop terminates.
 """
 from __future__ import annotations
 
 import numpy as np
 from hypothesis import strategies as st
 
-from vf import fockref, gen, refsim, spec
-from vf.core import Sub
+from vf import fockref, gen, refsim, sfrun, spec
+from vf.core import Sub, chash, jdump
 
 RULE = ("gaussian_unitary/passive: 1..10 commands over the accepted alphabet (incl. operations that are decomposed first) on a "
-        "generated subset (size 1..5) of a register of up to 12 modes, ordered targets, .H; gaussian_merge: 2..9 commands mixing "
-        "passive Gaussian gates with Kgate/CKgate on 1..3 modes; non-trivial = >= 2 source commands merged into one block on >= 2 modes")
+        "generated subset (size 1..5) of a register of up to 12 modes, ordered targets, .H, the same operation object applied several times, "
+        "bound free parameters, tiny parameters, hbar in {2, 1, 0.5, 1.7}, optimize=True, second compile / compile of the output; "
+        "gaussian_merge: 2..12 commands mixing Gaussian gates (passive ones, GaussianTransform, decomposed ones; variant A: small displacements "
+        "and squeezers) with Kgate/CKgate and at most one MeasureFock on 1..4 modes, preparation by one Ket, several single-mode Kets, a "
+        "two-mode Ket or none; non-trivial = >= 2 source commands merged into one block on >= 2 modes")
 ASSUMPTIONS = [
     "maps compared at 1e-8 absolute (X, Y) and 1e-7 (d); refsim encodes the documented maps (self-tested)",
     "sMZgate has no documented matrix: the oracle uses its decomposition BS(pi/4,pi/2) R(p1-pi/2)|1 R(p0-pi/2)|0 BS(pi/4,pi/2)",
     "gaussian_merge variant P: only passive Gaussian gates and number-diagonal non-Gaussian gates on kets with < cutoff photons, so both "
     "programs are exact in the truncated space (tolerance 1e-8)",
+    "with optimize=True an operation pair that cancels may leave a mode unused: the output register may then be a subset of the used modes",
+    "free parameters get names that are unique per case (sympy hands out cached expressions by symbol name, open finding F7)",
+    "gaussian_merge: the one MeasureFock is unconditioned and both programs are run with the same numpy seed; outcomes whose probability the "
+    "backend itself treats as zero (< 1e-8) are never drawn, so both programs project on the same outcome",
+    "gaussian_merge terminates: more than 300 passes of its merge loop over a circuit of <= 12 commands count as non-termination (the "
+    "unchanged tree needs <= 10); a count of passes, not a wall-clock limit",
 ]
 REQUIRED_LABELS = {"all": ["hash_order_differs", "noncontiguous", "dagger", "block_ge3", "compiler:gaussian_unitary", "compiler:passive",
-                           "compiler:gaussian_merge", "merged_ge2"]}
+                           "compiler:gaussian_merge", "merged_ge2", "same_object_twice", "free_parameter", "hbar_not_2", "compile_optimize",
+                           "again:twice", "again:recompile", "tiny_disp", "tiny_all"]}
 
 GU_ALPH = ["Dgate", "Sgate", "Rgate", "BSgate", "S2gate", "MZgate", "sMZgate", "Xgate", "Zgate", "Pgate", "CXgate", "CZgate", "Fouriergate",
            "Interferometer", "GaussianTransform"]
@@ -38,8 +54,17 @@ def selftest():
     refsim.selftest()
 
 
+# first parameters between the compilers' own "is it the identity / is it zero" thresholds (1e-13 resp. 1e-8) and the 1e-4 where a
+# dropped operation is far above the tolerance of the comparison: a net map this close to the identity must still be returned
+TINY = [3e-7, -3e-7, 5e-7, 1e-6, -1e-6, 2e-6, 1e-5, -1e-5]
+TINY_ALL = ["Dgate", "Xgate", "Zgate", "Sgate", "Pgate", "Rgate", "BSgate", "S2gate", "CXgate", "CZgate"]
+TINY_DISP = ["Dgate", "Xgate", "Zgate"]
+HBARS = [2.0, 2.0, 2.0, 1.0, 0.5, 1.7]
+REGOPS = False  # AUDIT-FINDING del-new-dropped: Del / New inside the circuit (primitives "_Delete", "_New_modes" of all three compilers)
+
+
 @st.composite
-def subset_case(draw, alphabet, energy="ps"):
+def subset_case(draw, alphabet, energy="ps", compiler="gaussian_unitary"):
     if draw(st.booleans()):
         modes = list(draw(st.sampled_from(SUBSETS)))
     else:
@@ -47,8 +72,23 @@ def subset_case(draw, alphabet, energy="ps"):
         modes = list(draw(st.permutations(list(range(12))))[:k])
     N = max(max(modes) + 1 + draw(st.integers(0, 1)), 1)
     k = len(modes)
+    # tiny: every first parameter ("all") or every displacement ("disp") is tiny but far above the tolerance of the comparison
+    tiny = draw(st.sampled_from([None] * 6 + ["all", "disp"])) if compiler == "gaussian_unitary" else None
+    if tiny == "all":
+        alphabet = TINY_ALL
     ops_ = []
+    reuse, free = {}, {}
+    with_free = draw(st.integers(0, 3)) == 0
     for _ in range(draw(st.integers(1, 10))):
+        if ops_ and draw(st.integers(0, 5)) == 0:
+            # the SAME operation object applied a second time (BS = BSgate(..); BS | (a, b); BS | (c, d)), in general to other modes
+            j = draw(st.integers(0, len(ops_) - 1))
+            src = ops_[j]
+            if len(src[2]) <= k:
+                tm = list(draw(st.permutations(modes))[: len(src[2])])
+                ops_.append([src[0], src[1], tm, dict(src[3])])
+                reuse[str(len(ops_) - 1)] = reuse.get(str(j), j)
+                continue
         names = [a for a in alphabet if gen.n_modes_of(a) <= k]
         name = draw(st.sampled_from(names))
         if name in ("Interferometer", "PassiveChannel", "GaussianTransform"):
@@ -66,63 +106,189 @@ def subset_case(draw, alphabet, energy="ps"):
             continue
         o = draw(gen.op_spec(k, [name], energy))
         o[2] = [modes[i] for i in o[2]]
+        if tiny == "all" or (tiny == "disp" and name in TINY_DISP):
+            o[1][0] = abs(draw(st.sampled_from(TINY))) if name == "Dgate" else draw(st.sampled_from(TINY))
+        if with_free and o[1] and draw(st.integers(0, 2)) == 0:
+            # the first parameter is a bound free parameter of the program: par, -par or 2*par (bound so that the value is o[1][0])
+            free[str(len(ops_))] = draw(st.sampled_from(["id", "neg", "twice"]))
         ops_.append(o)
-    return {"N": N, "modes": modes, "ops": ops_}
+    case = {"N": N, "modes": modes, "ops": ops_, "reuse": reuse, "free": free, "tiny": tiny,
+            "hbar": draw(st.sampled_from(HBARS)), "optimize": draw(st.integers(0, 5)) == 0,
+            "again": draw(st.sampled_from([None, None, None, None, None, "twice", "recompile"]))}
+    if REGOPS and draw(st.integers(0, 3)) == 0:
+        if draw(st.booleans()):
+            ops_.append(["Del", [], [draw(st.sampled_from(modes))], {}])  # a used mode is deleted at the end
+        else:
+            # a mode is added in the middle (its index is N) and coupled to a used mode afterwards
+            ops_.insert(draw(st.integers(0, len(ops_))), ["New", [], [N], {}])
+            ops_.append(["BSgate", [draw(gen.angle()), draw(gen.angle())], [draw(st.sampled_from(modes)), N], {}])
+            case["reuse"], case["free"] = {}, {}
+        case["regops"] = True
+    return case
+
+
+def _gate_ops(case):
+    return [o for o in case["ops"] if o[0] not in ("Del", "New")]
 
 
 def _labels(case, compiler):
     used = sorted({m for o in case["ops"] for m in o[2]})
-    labs = ["compiler:" + compiler] + gen.labels_of(case["ops"])
+    labs = ["compiler:" + compiler] + gen.labels_of(_gate_ops(case))
     if list(set(used)) != used:
         labs.append("hash_order_differs")
     if used and used != list(range(used[0], used[0] + len(used))):
         labs.append("noncontiguous")
     if any(len(o[2]) >= 3 for o in case["ops"]):
         labs.append("block_ge3")
+    if case.get("reuse"):
+        labs.append("same_object_twice")
+    if case.get("free"):
+        labs.append("free_parameter")
+    if case.get("tiny"):
+        labs.append("tiny_" + case["tiny"])
+    if case.get("hbar", 2.0) != 2.0:
+        labs.append("hbar_not_2")
+    if case.get("optimize"):
+        labs.append("compile_optimize")
+    if case.get("again"):
+        labs.append("again:" + case["again"])
+    if case.get("regops"):
+        labs.append("register_ops")
     return labs, used
 
 
-def _compile(case, compiler):
-    prog = spec.build_program(case["N"], case["ops"])
-    return prog.compile(compiler=compiler)
+def _build(case):
+    """the source Program; honours reuse (one operation object applied several times) and free (bound free parameters)"""
+    import strawberryfields as sf
+    from strawberryfields import ops
+
+    prog = sf.Program(case["N"])
+    reuse, free = case.get("reuse") or {}, case.get("free") or {}
+    objs, binding = {}, {}
+    # sympy caches expressions by symbol NAME (open finding F7): an expression such as 2*par built for an earlier program with an equally
+    # named parameter would be handed out again together with that program's value, so the names are made unique per case
+    tag = chash(case)[:10] if free else ""
+    with prog.context as q:
+        regs_ = list(q)
+        for i, o in enumerate(case["ops"]):
+            if o[0] == "Del":
+                ops.Del | regs_[o[2][0]]
+                continue
+            if o[0] == "New":
+                regs_ += list(ops.New(1))
+                continue
+            flags = o[3] if len(o) > 3 else {}
+            if str(i) in reuse:
+                op = objs[reuse[str(i)]]
+            elif str(i) in free:
+                par = prog.params("a%d_%s" % (i, tag))
+                v = float(o[1][0])
+                expr, bound = {"id": (par, v), "neg": (-par, -v), "twice": (2 * par, v / 2)}[free[str(i)]]
+                binding["a%d_%s" % (i, tag)] = bound
+                op = getattr(ops, o[0])(expr, *[spec.dec_param(p) for p in o[1][1:]])
+                if flags.get("H"):
+                    op = op.H
+            else:
+                op = spec.make_op(ops, o[0], o[1], flags)
+            objs[i] = op
+            regs = tuple(regs_[m] for m in o[2])
+            op | (regs if len(regs) != 1 else regs[0])
+    if binding:
+        prog.bind_params(binding)
+    return prog
 
 
-def check_gu(ctx, case):
+def _ref(case, specs, h):
+    n_new = sum(1 for o in case["ops"] if o[0] == "New")
+    return spec.ref_run(case["N"] + n_new, [s for s in specs if s[0] not in ("New", "_New_modes")], h)
+
+
+def _register_ops_kept(ctx, case, compiler, specs):
+    """Del / New cannot be part of a Gaussian transformation: they have to be in the output, and every matrix must fit its registers"""
+    for src, out in (("Del", "_Delete"), ("New", "_New_modes")):
+        a, b = sum(1 for o in case["ops"] if o[0] == src), sum(1 for s in specs if s[0] == out)
+        if a != b:
+            return ctx.fail(compiler + ".register_op_dropped", "the source has %d %s command(s), the compiled program %d: %s" % (a, src, b, [(s[0], s[2]) for s in specs]))
+    for s in specs:
+        if s[0] in ("GaussianTransform", "PassiveChannel"):
+            M = spec.dec_param(s[1][0])
+            if M.shape[0] != len(s[2]) * (2 if s[0] == "GaussianTransform" else 1):
+                return ctx.fail(compiler + ".matrix_register_mismatch", "%s with a %dx%d matrix is applied to the %d mode(s) %s" % (s[0], M.shape[0], M.shape[1], len(s[2]), s[2]))
+    return None
+
+
+def _check_subset(ctx, case, compiler, verify):
+    """shared driver: compile (options from the case), verify the output, then the statefulness part: the source program is unchanged,
+    a second compile of the same Program object / a compile of the compiled program give the same map"""
     from strawberryfields.program_utils import CircuitError
 
+    h = float(case.get("hbar", 2.0))
+    labels, used = _labels(case, compiler)
+    kw = {"optimize": True} if case.get("optimize") else {}
+    with sfrun.HbarCtx(h):
+        doc = _ref(case, case["ops"], h)
+        prog = _build(case)
+        before = jdump(spec.circuit_to_specs(prog.circuit))
+        try:
+            comp = prog.compile(compiler=compiler, **kw)
+        except CircuitError:
+            ctx.note(case, False, ["rejected"])
+            return None
+        except Exception as exc:  # pylint: disable=broad-except
+            ctx.note(case, True, labels)
+            return ctx.crash(exc, compiler)
+        merged = len(_gate_ops(case)) >= 2 and len(used) >= 2
+        ctx.note(case, nontrivial=merged, labels=labels + (["merged_ge2"] if merged else []))
+        verify(ctx, case, comp, doc, used, "")
+        after = spec.circuit_to_specs(prog.circuit)
+        if jdump(after) != before:
+            # the source was rewritten in place: it is only a failure if the source no longer has the action it had (= the one of the output)
+            now = _ref(case, after, h)
+            dev = max(float(np.max(np.abs(doc.X - now.X))), float(np.max(np.abs(doc.Y - now.Y))), float(np.max(np.abs(doc.d - now.d))))
+            if dev > 1e-8 * (1 + float(np.max(np.abs(doc.X)))):
+                return ctx.fail(compiler + ".source_modified", "after compile() the SOURCE program has another action than before (and than the compiled program): its map moved by %.3g" % dev)
+        again = case.get("again")
+        if again:
+            try:
+                comp2 = prog.compile(compiler=compiler, **kw) if again == "twice" else comp.compile(compiler=compiler)
+            except Exception as exc:  # pylint: disable=broad-except
+                return ctx.crash(exc, compiler + "_" + again)
+            verify(ctx, case, comp2, doc, used, {"twice": "second compile of the same Program: ", "recompile": "compile of the compiled program: "}[again])
+    return None
+
+
+def _verify_gu(ctx, case, comp, doc, used, what):
     N = case["N"]
-    labels, used = _labels(case, "gaussian_unitary")
-    doc = spec.ref_run(N, case["ops"], 2.0)
-    try:
-        comp = _compile(case, "gaussian_unitary")
-    except CircuitError:
-        ctx.note(case, False, ["rejected"])
-        return None
-    except Exception as exc:  # pylint: disable=broad-except
-        ctx.note(case, True, labels)
-        return ctx.crash(exc, "gaussian_unitary")
-    merged = len(case["ops"]) >= 2 and len(used) >= 2
-    ctx.note(case, nontrivial=merged, labels=labels + (["merged_ge2"] if merged else []))
+    h = float(case.get("hbar", 2.0))
+    sfx = ".again" if what else ""
     specs = spec.circuit_to_specs(comp.circuit)
-    names = [s[0] for s in specs]
+    if case.get("regops"):
+        _register_ops_kept(ctx, case, "gaussian_unitary", specs)
+    names = [s[0] for s in specs if s[0] not in ("_Delete", "_New_modes")]
     if names.count("GaussianTransform") > 1 or any(nm not in ("GaussianTransform", "Dgate") for nm in names):
-        return ctx.fail("gaussian_unitary.output_form", "compiled circuit is %s, expected one GaussianTransform followed by Dgates" % names)
+        return ctx.fail("gaussian_unitary.output_form" + sfx, what + "compiled circuit is %s, expected one GaussianTransform followed by Dgates" % names)
     for s in specs:
-        if s[0] == "GaussianTransform" and sorted(s[2]) != used:  # any order is fine as long as the matrix matches it (checked below)
-            return ctx.fail("gaussian_unitary.output_register", "GaussianTransform acts on %s, the source used %s" % (s[2], used))
+        # any order is fine as long as the matrix matches it (checked below); optimize=True may cancel every operation on a mode
+        if s[0] == "GaussianTransform" and (sorted(s[2]) != used if not case.get("optimize") else not set(s[2]) <= set(used)):
+            return ctx.fail("gaussian_unitary.output_register" + sfx, what + "GaussianTransform acts on %s, the source used %s" % (s[2], used))
         if s[0] == "Dgate" and s[2][0] not in used:
-            return ctx.fail("gaussian_unitary.output_register", "Dgate on unused mode %s" % s[2])
-    got = spec.ref_run(N, specs, 2.0)
+            return ctx.fail("gaussian_unitary.output_register" + sfx, what + "Dgate on unused mode %s" % s[2])
+    got = _ref(case, specs, h)
     dX = float(np.max(np.abs(doc.X - got.X)))
     dd = float(np.max(np.abs(doc.d - got.d)))
     if dX > 1e-8 * (1 + float(np.max(np.abs(doc.X)))) or dd > 1e-7 * (1 + float(np.max(np.abs(doc.d)))):
-        return ctx.fail(_classify(case, "gaussian_unitary", doc, N), "compiled map differs from the ordered product of the source operations: |dS|=%.3g |dd|=%.3g (used modes %s)" % (dX, dd, used))
+        sig = _classify(case, "gaussian_unitary", doc, N) if not what else "gaussian_unitary.wrong_map.again"
+        return ctx.fail(sig, what + "compiled map differs from the ordered product of the source operations: |dS|=%.3g |dd|=%.3g (used modes %s)" % (dX, dd, used))
     return None
+
+
+def check_gu(ctx, case):
+    return _check_subset(ctx, case, "gaussian_unitary", _verify_gu)
 
 
 def _classify(case, compiler, doc, N):
     """root-cause label: does the failure go away without daggers / on a contiguous relabelling?"""
-    ops_ = case["ops"]
+    ops_ = _gate_ops(case)
     has_dag = any((o[3] if len(o) > 3 else {}).get("H") for o in ops_)
     used = sorted({m for o in ops_ for m in o[2]})
     reorder = list(set(used)) != used
@@ -142,74 +308,156 @@ def _small_identity_dist(doc):
     return d if d < 1e-4 else 0.0
 
 
-def check_pa(ctx, case):
-    from strawberryfields.program_utils import CircuitError
-
+def _verify_pa(ctx, case, comp, doc, used, what):
     N = case["N"]
-    labels, used = _labels(case, "passive")
-    doc = spec.ref_run(N, case["ops"], 2.0)
-    try:
-        comp = _compile(case, "passive")
-    except CircuitError:
-        ctx.note(case, False, ["rejected"])
-        return None
-    except Exception as exc:  # pylint: disable=broad-except
-        ctx.note(case, True, labels)
-        return ctx.crash(exc, "passive")
-    merged = len(case["ops"]) >= 2 and len(used) >= 2
-    ctx.note(case, nontrivial=merged, labels=labels + (["merged_ge2"] if merged else []))
+    h = float(case.get("hbar", 2.0))
+    sfx = ".again" if what else ""
     specs = spec.circuit_to_specs(comp.circuit)
-    if [s[0] for s in specs] != ["PassiveChannel"]:
-        return ctx.fail("passive.output_form", "compiled circuit is %s, expected one PassiveChannel" % [s[0] for s in specs])
-    if sorted(specs[0][2]) != used:
-        return ctx.fail("passive.output_register", "PassiveChannel acts on %s, the source used %s" % (specs[0][2], used))
-    got = spec.ref_run(N, specs, 2.0)
+    if case.get("regops"):
+        _register_ops_kept(ctx, case, "passive", specs)
+        specs_g = [s for s in specs if s[0] not in ("_Delete", "_New_modes")]
+    else:
+        specs_g = specs
+    if [s[0] for s in specs_g] != ["PassiveChannel"]:
+        return ctx.fail("passive.output_form" + sfx, what + "compiled circuit is %s, expected one PassiveChannel" % [s[0] for s in specs])
+    if sorted(specs_g[0][2]) != used if not case.get("optimize") else not set(specs_g[0][2]) <= set(used):
+        return ctx.fail("passive.output_register" + sfx, what + "PassiveChannel acts on %s, the source used %s" % (specs_g[0][2], used))
+    got = _ref(case, specs, h)
     d = max(float(np.max(np.abs(doc.X - got.X))), float(np.max(np.abs(doc.Y - got.Y))))
     if d > 1e-8:
-        return ctx.fail(_classify(case, "passive", doc, N), "compiled transfer matrix differs from the ordered product of the source operations by %.3g (used modes %s)" % (d, used))
+        sig = _classify(case, "passive", doc, N) if not what else "passive.wrong_map.again"
+        return ctx.fail(sig, what + "compiled transfer matrix differs from the ordered product of the source operations by %.3g (used modes %s)" % (d, used))
     return None
+
+
+def check_pa(ctx, case):
+    return _check_subset(ctx, case, "passive", _verify_pa)
 
 
 # ---------------------------------------------------------------------------------------------
 # gaussian_merge
 # ---------------------------------------------------------------------------------------------
+GM_FEEDFORWARD = False  # AUDIT-FINDING gm-measured-parameter: a Gaussian gate whose parameter is a measured value next to another Gaussian gate
+NONGAUSS = ("Kgate", "CKgate", "MeasureFock")
+
+
 @st.composite
 def gm_case(draw):
     from vf.props.c05 import ket_terms
 
-    n = draw(st.integers(1, 3))
+    n = draw(st.sampled_from([1, 2, 2, 3, 3, 3, 4]))
     D = draw(st.integers(4, 5))
-    active = draw(st.booleans())  # variant A: small displacements / squeezers as well (larger cutoff, truncation tolerance)
-    alph = ["Rgate", "Rgate", "BSgate", "MZgate", "Kgate", "CKgate", "Interferometer"] if n > 1 else ["Rgate", "Kgate"]
+    # variant A (active): small displacements / squeezers as well (larger cutoff, truncation tolerance).  One mode without active gates
+    # has only Rgate and Kgate, which commute (no order could be seen): always A.  Four modes: never A (size of the density matrix).
+    active = n == 1 or (n < 4 and draw(st.booleans()))
+    single = ["Rgate", "Rgate", "Fouriergate", "Kgate", "Kgate"]
+    alph = single + ["BSgate", "BSgate", "MZgate", "sMZgate", "CKgate", "Interferometer", "GaussianTransform"] if n > 1 else single
     if active:
-        alph = alph + ["Dgate", "Dgate", "Sgate"]
+        alph = alph + ["Dgate", "Dgate", "Sgate", "Xgate", "Zgate"]
         D = 8 if n < 3 else 7
+    # one unconditioned photon-number measurement in the middle (seeded; the same seed for both programs): a non-Gaussian command on 1..3 modes.
+    # Not with active gates: the state is renormalised afterwards, so its trace no longer tells how much the truncation cost.
+    measure = not active and draw(st.integers(0, 2)) == 0
+    ng = ["Kgate", "Kgate", "CKgate"]
     ops_ = []
     # layered circuits: blocks of Gaussian gates separated by layers of non-Gaussian gates on several modes (the shape the merge is made for);
     # otherwise a flat random sequence
     layered = n > 1 and draw(st.booleans())
     names = []
     if layered:
-        gl = [a for a in alph if a not in ("Kgate", "CKgate")]
+        gl = [a for a in alph if a not in NONGAUSS]
         for _ in range(draw(st.integers(1, 3))):
             names += [draw(st.sampled_from(gl)) for _ in range(draw(st.integers(1, 4)))]
-            names += [draw(st.sampled_from(["Kgate", "Kgate", "CKgate"])) for _ in range(draw(st.integers(1, 3)))]
+            names += [draw(st.sampled_from(ng)) for _ in range(draw(st.integers(1, 3)))]
         names = names[:11]
     else:
         names = [draw(st.sampled_from(alph)) for _ in range(draw(st.integers(2, 9)))]
+    if measure:
+        # exactly ONE measurement command: two of them on different modes may be sorted either way, and the seeded random numbers would then
+        # be used for different modes in the two programs
+        names.insert(draw(st.integers(0, len(names))), "MeasureFock")
+    reuse = {}
+    measured = []
+    sign = st.sampled_from([1, -1])
+    dag = st.integers(0, 3).map(lambda v: {"H": True} if v == 0 else {})
     for name in names:
+        if ops_ and draw(st.integers(0, 5)) == 0:
+            # the SAME operation object applied again, in general to other modes
+            j = draw(st.integers(0, len(ops_) - 1))
+            src = ops_[j]
+            if src[0] != "MeasureFock" and "mpar" not in src[3]:
+                tm = list(draw(st.permutations(list(range(n))))[: len(src[2])])
+                ops_.append([src[0], src[1], tm, dict(src[3])])
+                reuse[str(len(ops_) - 1)] = reuse.get(str(j), j)
+                continue
         if name in ("Dgate", "Sgate"):
             m = draw(st.integers(0, n - 1))
-            ops_.append([name, [draw(gen.fl(0.05, 0.2)) * (1 if name == "Dgate" else draw(st.sampled_from([1, -1]))), draw(gen.angle())], [m], {"H": True} if draw(st.integers(0, 3)) == 0 else {}])
-            continue
-        if name == "Interferometer":
+            ops_.append([name, [draw(gen.fl(0.05, 0.2)) * (1 if name == "Dgate" else draw(sign)), draw(gen.angle())], [m], draw(dag)])
+        elif name in ("Xgate", "Zgate"):
+            ops_.append([name, [draw(gen.fl(0.1, 0.4)) * draw(sign)], [draw(st.integers(0, n - 1))], draw(dag)])
+        elif name == "S2gate":
+            ops_.append([name, [draw(gen.fl(0.05, 0.15)) * draw(sign), draw(gen.angle())], list(draw(st.permutations(list(range(n))))[:2]), draw(dag)])
+        elif name in ("Interferometer", "GaussianTransform"):
             tm = list(draw(st.permutations(list(range(n))))[: draw(st.integers(1, n))])
-            ops_.append([name, [spec.enc_matrix(draw(gen.unitary(len(tm)))[1])], tm, {}])
+            U = draw(gen.unitary(len(tm)))[1]
+            ops_.append([name, [spec.enc_matrix(U if name == "Interferometer" else gen.orth_symplectic(U))], tm, {}])
+        elif name == "MeasureFock":
+            tm = list(draw(st.permutations(list(range(n))))[: draw(st.integers(1, min(n, 3)))])
+            ops_.append([name, [], tm, {}])
+            measured += [m for m in tm if m not in measured]
         else:
             o = draw(gen.op_spec(n, [name], "fock", dagger=True, no_mz_dagger=True))
+            if GM_FEEDFORWARD and name == "Rgate" and measured and draw(st.booleans()):
+                o[3]["mpar"] = draw(st.sampled_from(measured))  # Rgate(q[m].par): the angle is the number of photons found in mode m
             ops_.append(o)
-    meas = draw(st.sampled_from([None, None, "fock"]))
-    return {"n": n, "cutoff": D, "ket": draw(ket_terms(n, min(D - 1, 2) if not active else 1)), "ops": ops_, "measure": meas, "active": active, "layered": layered}
+    pmax = 1 if active else min(D - 1, 2)
+    # a Ket on a part of the register makes the simulator switch to density matrices: only where those are small (no active gates, <= 3 modes)
+    small = not active and n <= 3
+    kinds = (["all", "per_mode", "per_mode"] + (["partial", "partial"] if n >= 3 else [])) if small and n >= 2 else ["all", "all"] + (["none"] if active else [])
+    pk = draw(st.sampled_from(kinds))
+    if pk == "all":
+        prep = [[list(range(n)), draw(ket_terms(n, pmax))]]
+    elif pk == "per_mode":
+        # one single-mode Ket command per prepared mode (superpositions of |0> and |1>), the other modes start in the vacuum without any command
+        order = list(draw(st.permutations(list(range(n)))))
+        cnt = draw(st.integers(1, min(n, D - 1)))
+        prep = [[[m], draw(ket_terms(1, 1))] for m in order[:cnt]]
+    elif pk == "partial":
+        prep = [[list(draw(st.permutations(list(range(n))))[:2]), draw(ket_terms(2, pmax))]]
+    else:
+        prep = []
+    return {"n": n, "cutoff": D, "prep": prep, "prep_kind": pk, "ops": ops_, "reuse": reuse, "seed": draw(st.integers(0, 2 ** 31 - 1)),
+            "active": active, "layered": layered}
+
+
+MERGE_CAP = 300  # passes of GaussianMerge.merge_a_gaussian_op; circuits have <= 12 commands and the unchanged tree needs <= 10 passes
+
+
+class _NoTermination(Exception):
+    pass
+
+
+def _capped_merge():
+    """the 'gaussian_merge' compiler object with a counter on its merge loop: an endless loop becomes a reportable failure instead of a hang
+    (a count of passes, not a wall-clock limit)"""
+    from strawberryfields.compilers.gaussian_merge import GaussianMerge
+
+    class Capped(GaussianMerge):
+        passes = 0
+        last_block = ()
+
+        def organize_merge_ops(self, merged_gaussian_ops):  # called once per merge with the commands that are merged
+            out = super().organize_merge_ops(merged_gaussian_ops)
+            self.last_block = tuple((c.op.__class__.__name__, tuple(r.ind for r in c.reg)) for c in out)
+            return out
+
+        def merge_a_gaussian_op(self, registers):
+            self.passes += 1
+            if self.passes > MERGE_CAP:
+                raise _NoTermination(self.last_block)
+            return super().merge_a_gaussian_op(registers)
+
+    return Capped()
 
 
 def check_gm(ctx, case):
@@ -220,34 +468,65 @@ def check_gm(ctx, case):
     from vf.props.c05 import ket_from_terms
 
     n, D = case["n"], case["cutoff"]
-    psi = ket_from_terms(n, D, case["ket"])
+    prep = case.get("prep")
+    if prep is None:  # replay files written before the preparation became part of the case: one Ket on all modes
+        prep = [[list(range(n)), case["ket"]]]
+    reuse = case.get("reuse") or {}
 
     def build():
         prog = sf.Program(n)
+        objs = {}
         with prog.context as q:
-            ops.Ket(psi) | tuple(q)
-            for o in case["ops"]:
-                op = spec.make_op(ops, o[0], o[1], o[3] if len(o) > 3 else {})
+            for modes, terms in prep:
+                regs = tuple(q[m] for m in modes)
+                ops.Ket(ket_from_terms(len(modes), D, terms)) | (regs if len(regs) > 1 else regs[0])
+            for i, o in enumerate(case["ops"]):
+                flags = o[3] if len(o) > 3 else {}
+                if str(i) in reuse:
+                    op = objs[reuse[str(i)]]
+                elif o[0] == "MeasureFock":
+                    op = ops.MeasureFock()
+                elif "mpar" in flags:
+                    op = getattr(ops, o[0])(q[flags["mpar"]].par)
+                else:
+                    op = spec.make_op(ops, o[0], o[1], flags)
+                objs[i] = op
                 regs = tuple(q[m] for m in o[2])
                 op | (regs if len(regs) > 1 else regs[0])
         return prog
 
-    labels = ["compiler:gaussian_merge"] + gen.labels_of(case["ops"])
+    labels = ["compiler:gaussian_merge", "prep:" + case.get("prep_kind", "all")] + gen.labels_of([o for o in case["ops"] if o[0] != "MeasureFock"])
     if case.get("active"):
         labels.append("variant_active")
-    nongauss = [o for o in case["ops"] if o[0] in ("Kgate", "CKgate")]
+    if reuse:
+        labels.append("same_object_twice")
+    if n >= 4:
+        labels.append("modes_ge4")
+    has_meas = any(o[0] == "MeasureFock" for o in case["ops"])
+    if has_meas:
+        labels.append("measure_fock_midcircuit")
+    if any("mpar" in (o[3] if len(o) > 3 else {}) for o in case["ops"]):
+        labels.append("measured_parameter")
+    nongauss = [o for o in case["ops"] if o[0] in NONGAUSS]
     gauss_runs = 0
     run = 0
     for o in case["ops"]:
-        run = run + 1 if o[0] not in ("Kgate", "CKgate") else 0
+        run = run + 1 if o[0] not in NONGAUSS else 0
         gauss_runs = max(gauss_runs, run)
     if nongauss and gauss_runs >= 1:
         labels.append("hybrid_nongaussian_between_blocks")
+    capped = _capped_merge()
     try:
-        comp = build().compile(compiler="gaussian_merge")
+        comp = build().compile(compiler=capped)
     except CircuitError:
         ctx.note(case, False, ["rejected"])
         return None
+    except _NoTermination as exc:
+        block = exc.args[0] if exc.args else ()
+        # (finding F74, fixed: a "merge" of displacement gates on different modes returned the same gates, was reported as progress and
+        # compile() never returned; such cases are no longer set aside)
+        ctx.note(case, True, labels)
+        return ctx.fail("gaussian_merge.does_not_terminate", "gaussian_merge was still merging after %d passes over a circuit of %d commands; last merged block %s" % (MERGE_CAP, len(case["ops"]), list(block)))
     except nx.NetworkXUnfeasible as exc:
         ctx.note(case, True, labels)
         return ctx.fail("F36.gaussian_merge_networkx_unfeasible", "gaussian_merge's DAG surgery created a cycle: %s" % str(exc)[:80])
@@ -260,23 +539,31 @@ def check_gm(ctx, case):
         out = {m: [] for m in range(n)}
         for c in circ:
             nm = c.op.__class__.__name__
-            if nm in ("Kgate", "CKgate"):
+            if nm in NONGAUSS:
                 for r in c.reg:
-                    out[r.ind].append((nm, float(c.op.p[0]), bool(c.op.dagger), tuple(x.ind for x in c.reg)))
+                    out[r.ind].append((nm, float(c.op.p[0]) if nm != "MeasureFock" else 0.0, bool(getattr(c.op, "dagger", False)), tuple(x.ind for x in c.reg)))
         return out
 
     src_prog = build()
     if ng_seq(src_prog.circuit) != ng_seq(comp.circuit):
         return ctx.fail("gaussian_merge.nongaussian_sequence_changed", "per-mode sequence of non-Gaussian commands differs between source and compiled program")
     try:
-        s0 = sf.Engine("fock", backend_options={"cutoff_dim": D}).run(src_prog).state
-        s1 = sf.Engine("fock", backend_options={"cutoff_dim": D}).run(comp).state
+        np.random.seed(int(case.get("seed", 0)))
+        r0 = sf.Engine("fock", backend_options={"cutoff_dim": D}).run(src_prog)
+        np.random.seed(int(case.get("seed", 0)))
+        r1 = sf.Engine("fock", backend_options={"cutoff_dim": D}).run(comp)
+        s0, s1 = r0.state, r1.state
     except ValueError as exc:
         if "not unitary" in str(exc) or "symplectic" in str(exc):
             return ctx.fail("gaussian_merge.output_not_decomposable", "the merged GaussianTransform cannot be applied: %s" % str(exc)[:100])
         return ctx.crash(exc, "run_compiled")
     except Exception as exc:  # pylint: disable=broad-except
         return ctx.crash(exc, "run_compiled")
+    def compiled_txt():
+        return [str(c.op)[:24] + str([r.ind for r in c.reg]) for c in comp.circuit][len(prep):]
+
+    if has_meas and not np.array_equal(np.asarray(r0.samples), np.asarray(r1.samples)):
+        return ctx.fail("gaussian_merge.wrong_program", "with the same seed the source measures %s, the compiled program %s; compiled: %s" % (np.asarray(r0.samples).tolist(), np.asarray(r1.samples).tolist(), compiled_txt()))
     d = float(np.max(np.abs(fockref.state_dm(s0) - fockref.state_dm(s1))))
     tol = 1e-8
     if case.get("active"):
@@ -287,17 +574,17 @@ def check_gm(ctx, case):
             ctx.label("truncation_dominated")
             return None
     if d > tol:
-        return ctx.fail("gaussian_merge.wrong_program", "states of source and compiled program differ by %.3g; compiled: %s" % (d, [str(c.op)[:24] + str([r.ind for r in c.reg]) for c in comp.circuit][1:]))
+        return ctx.fail("gaussian_merge.wrong_program", "states of source and compiled program differ by %.3g; compiled: %s" % (d, compiled_txt()))
     return None
 
 
 SUBS = [
     Sub("gaussian_unitary", check=check_gu, strategy=lambda ctx: subset_case(GU_ALPH), examples={"quick": 1200, "thorough": 12000},
-        shards={"quick": 2, "thorough": 16}, rule="gaussian_unitary on generated index subsets with .H: maps of source and output equal"),
-    Sub("passive", check=check_pa, strategy=lambda ctx: subset_case(PA_ALPH), examples={"quick": 1200, "thorough": 12000},
-        shards={"quick": 1, "thorough": 16}, rule="passive compiler: transfer matrix and loss noise of source and output equal"),
-    Sub("gaussian_merge", check=check_gm, strategy=lambda ctx: gm_case(), examples={"quick": 300, "thorough": 2500},
-        shards={"quick": 4, "thorough": 16}, rule="hybrid circuits (passive gates + Kerr / cross-Kerr; variant A adds small displacements and squeezers): fock states of source and gaussian_merge output equal"),
+        shards={"quick": 2, "thorough": 16}, rule="gaussian_unitary on generated index subsets with .H, shared operation objects, free parameters, tiny parameters, hbar, optimize: maps of source and output equal; source unchanged; recompilation"),
+    Sub("passive", check=check_pa, strategy=lambda ctx: subset_case(PA_ALPH, compiler="passive"), examples={"quick": 1200, "thorough": 12000},
+        shards={"quick": 1, "thorough": 16}, rule="passive compiler (same variations): transfer matrix and loss noise of source and output equal; source unchanged; recompilation"),
+    Sub("gaussian_merge", check=check_gm, strategy=lambda ctx: gm_case(), examples={"quick": 400, "thorough": 2500},
+        shards={"quick": 3, "thorough": 16}, rule="hybrid circuits (passive gates + Kerr / cross-Kerr / one seeded MeasureFock; variant A adds small displacements and squeezers) on 1..4 modes with several preparation layouts: fock states of source and gaussian_merge output equal"),
 ]
 
 MANIFEST = {
@@ -305,5 +592,7 @@ MANIFEST = {
     "text": ("The GaussianTransform + displacements (or the single PassiveChannel) returned by the compiler is interpreted by refsim on the modes "
              "it names and compared with refsim's composition of the source commands (honouring .H) on the full register, for generated index "
              "subsets including non-contiguous ones and ones whose set order differs from numeric order; gaussian_merge outputs are compared "
-             "with their sources as Fock states on bounded-photon kets where both are exact."),
+             "with their sources as Fock states on bounded-photon kets where both are exact.  The source program is also compiled a "
+             "second time, the output is compiled again, operation objects are shared between commands and parameters may be bound free "
+             "parameters; Del/New inside the circuit and measured parameters next to Gaussian gates are NOT generated (audit findings)."),
 }
